@@ -62,12 +62,95 @@ pub fn gen_program(rng: &mut Rng, return_in_for: bool) -> (Vec<String>, bool, us
     (toks, g.made_return_in_for, nf)
 }
 
+/// "Search" functions: for-in loops nested 1-3 deep over handles passed as arguments, a `return`
+/// from the innermost loop when the searched combination is met, called several times with
+/// targets found early / late / never — the shape in which loop-iteration state left behind by an
+/// earlier call decides what the next call does.  (A `return` inside a for-in body is the
+/// recorded class C05/return-inside-for: the goto-machine model reproduces the code's behaviour
+/// and is compared with it; the tree interpreter gives no verdict there.)  Variants: scoped or
+/// not, a recursive call from the innermost loop, a callee with its own loop.
+pub fn gen_search(rng: &mut Rng) -> Vec<String> {
+    let e = |s: &str| s.to_string();
+    let depth = 1 + rng.below(3);
+    let scoped = rng.chance(1, 2);
+    let recursive = rng.chance(1, 4);
+    let pools: [&[&str]; 3] = [&["a", "b", "c"], &["1", "2", "3"], &["x", "y"]];
+    let mut top: Vec<Vec<String>> = vec![];
+    for d in 0..depth {
+        let n = 1 + rng.below(pools[d].len());
+        top.push(line(Some(&format!("h{}", d)), "array", &pools[d][..n].iter().map(|s| s.to_string()).collect::<Vec<_>>()));
+    }
+    // innermost statement list: if equals <i0><i1>.. ${target}  return <value>  end ; [recursive call]
+    let vars = ["i", "j", "k"];
+    let concat: String = (0..depth).map(|d| format!("${{{}}}", vars[d])).collect();
+    let target_param = depth + 1;
+    let mut inner: Vec<String> = vec![];
+    let mut n_inner = 2;
+    inner.extend(line(None, "emit", &[e("visit"), concat.clone()]));
+    inner.push("I".into());
+    inner.push(enc_str(rng.pick_s(&KW_IF)));
+    inner.push(enc_list(&[e("equals"), concat.clone(), format!("${{{}}}", target_param)]));
+    inner.push("B1".into());
+    inner.push("R".into());
+    inner.push(enc_str(rng.pick_s(&KW_RET)));
+    inner.push(enc_str(&format!("found-{}", concat)));
+    inner.push("E0".into());
+    inner.push("X-".into());
+    inner.push(enc_str(rng.pick_s(&KW_ENDIF)));
+    if recursive {
+        // one level of recursion from inside the loops: the inner call searches for `zz` (never found)
+        let mut args: Vec<String> = (1..=depth).map(|d| format!("${{{}}}", d)).collect();
+        args.push(e("zz"));
+        args.push(e("stop"));
+        inner.push("I".into());
+        inner.push(enc_str("if"));
+        inner.push(enc_list(&[e("not"), e("equals"), format!("${{{}}}", depth + 2), e("stop")]));
+        inner.push("B1".into());
+        inner.extend(line(Some("rr"), "search", &args));
+        inner.push("E0".into());
+        inner.push("X-".into());
+        inner.push(enc_str("end"));
+        n_inner += 1;
+    }
+    let mut body: Vec<String> = vec![format!("B{}", n_inner)];
+    body.extend(inner);
+    for d in (0..depth).rev() {
+        let mut f = vec![e("B1"), e("F"), enc_str(rng.pick_s(&KW_FOR)), enc_str(vars[d]), enc_str(&format!("${{{}}}", d + 1))];
+        f.extend(body);
+        f.push(enc_str(rng.pick_s(&KW_ENDFOR)));
+        body = f;
+    }
+    // function: body = the loop nest + a final `return none`
+    let mut def = vec![e("D"), enc_str(rng.pick_s(&KW_FN)), if scoped { e("1") } else { e("0") }, enc_str("search"), e("B2")];
+    def.extend(body.into_iter().skip(1));
+    def.push("R".into());
+    def.push(enc_str("return"));
+    def.push(if rng.chance(1, 2) { enc_str("none") } else { e("-") });
+    def.push(enc_str(rng.pick_s(&KW_ENDFN)));
+    // calls
+    let ncalls = 2 + rng.below(4);
+    let mut calls: Vec<Vec<String>> = vec![];
+    for c in 0..ncalls {
+        let target: String = if rng.chance(1, 5) { e("zz") } else { (0..depth).map(|d| rng.pick_s(pools[d]).to_string()).collect() };
+        let mut args: Vec<String> = (0..depth).map(|d| format!("${{h{}}}", d)).collect();
+        args.push(target);
+        args.push(if recursive { e("go") } else { e("stop") });
+        calls.push(line(Some(&format!("r{}", c % 2)), "search", &args));
+        calls.push(line(None, "emit", &[format!("call{}", c), format!("${{r{}}}", c % 2)]));
+    }
+    let mut toks = vec![format!("B{}", top.len() + 1 + calls.len())];
+    for t in top { toks.extend(t); }
+    toks.extend(def);
+    for c in calls { toks.extend(c); }
+    toks
+}
+
 impl Prop for C05Prop {
     fn id(&self) -> &'static str {
         "C05"
     }
     fn rule(&self) -> &'static str {
-        "programs with 1-3 function definitions (scoped or not, 0-2 parameters, any spelling of fn/end_fn/return), bodies with nested if/while/for-in and returns at any depth (bare or with a value), calls as statements, as output-assigning statements and in condition position (leaf functions), calls from function bodies to earlier functions, repeated calls from loops; main body as in C04. Oracle: the Lean tree interpreter (functions = bodies with parameters, scoped = isolated variables). In-domain stream: no 'return' lexically inside a for-in body (that shape is the recorded finding C05/return-inside-for and is generated in a separate stream). Observed: emit trace, final variables. Non-trivial = at least one call executed inside a loop or branch and at least one return; distinct = distinct request."
+        "programs with 1-3 function definitions (scoped or not, 0-2 parameters, any spelling of fn/end_fn/return), bodies with nested if/while/for-in and returns at any depth (bare or with a value), calls as statements, as output-assigning statements and in condition position (leaf functions), calls from function bodies to earlier functions, repeated calls from loops; main body as in C04. Oracle: the Lean tree interpreter (functions = bodies with parameters, scoped = isolated variables). In-domain stream: no 'return' lexically inside a for-in body (that shape is the recorded finding C05/return-inside-for and is generated in a separate stream). One program in ten is a SEARCH function: for-in loops nested 1-3 deep over handles passed as arguments, `return` from the innermost loop when the searched combination is met, 2-5 calls with targets found early / late / never, optionally a recursive call from the innermost loop, scoped or not (inside the recorded class C05/return-inside-for: goto-machine model vs code; any difference from the model is a violation). One program in twelve starts with no variables at all; initial values with blanks + backslashes reach calls in condition position. Observed: emit trace, final variables. Non-trivial = at least one call executed inside a loop or branch and at least one return; distinct = distinct request."
     }
     fn budget(&self, tier: Tier) -> usize {
         match tier {
@@ -76,7 +159,14 @@ impl Prop for C05Prop {
         }
     }
     fn generate(&self, rng: &mut Rng, _tier: Tier) -> Case {
-        let vars = init_vars(rng);
+        if rng.chance(1, 10) {
+            let toks = gen_search(rng);
+            let vars = if rng.chance(1, 2) { "-".to_string() } else { init_vars(rng) };
+            return Case { req: format!("c04 {} {} 200000", toks.join(";"), vars), in_domain: false, nontrivial: true, tags: vec!["search-function", "return-inside-for", "fn", "return"] };
+        }
+        // one program in twelve starts with NO variables at all (a scoped call is then made with
+        // an empty variable map; flags read as undefined = falsy)
+        let vars = if rng.chance(1, 12) { "-".to_string() } else { init_vars(rng) };
         let rif = rng.chance(1, 10);
         let (toks, made_rif, _nf) = gen_program(rng, rif);
         let has_ret = toks.iter().any(|t| t == "R");
